@@ -506,7 +506,7 @@ func longLists(c *ctx) bool {
 			return false
 		}
 		for k := range cards {
-			term := fmt.Sprintf("t%d", k)
+			term := zh.BoundaryTerm(k, len(cards))
 			hits := hitsOf(e.spec, "tag", term)
 			var docs []uint64
 			for _, h := range hits.L {
